@@ -85,7 +85,7 @@ def analyse(ctx, shard, stats, corpus_name=None):
                                   {"kind": "c02", "sched": scheds[sid], "corpus": corpus_name}, found_input=True)
     for l in netdrive.read_lines(os.path.join(shard["dir"], "c02.summary")):
         f = netdrive.kv(l)
-        for key in ("crashes", "hookcrashes", "armed", "between"):
+        for key in ("crashes", "hookcrashes", "armed", "between", "pfails", "ckptfirst"):
             stats[key] += int(f.get(key, 0))
         for name, dst in (("hits", stats["hits"]), ("crashedat", stats["crashedat"])):
             for item in f.get(name, "").split(","):
@@ -180,7 +180,7 @@ def analyse(ctx, shard, stats, corpus_name=None):
 def new_stats():
     return {"schedules": 0, "events": 0, "rejects": 0, "nontrivial": 0, "violations": 0, "reported": 0, "panics": 0, "harness_notes": 0,
             "released": 0, "keys": 0, "rereleased": 0, "proposal_changes_after_crash": 0, "crash_lines": 0, "restored": 0, "fresh": 0,
-            "crashes": 0, "hookcrashes": 0, "armed": 0, "between": 0, "hits": {}, "crashedat": {}, "kinds": {}, "profiles": {}, "decisions": {},
+            "crashes": 0, "hookcrashes": 0, "armed": 0, "between": 0, "pfails": 0, "ckptfirst": 0, "hits": {}, "crashedat": {}, "kinds": {}, "profiles": {}, "decisions": {},
             "c01_rejects": {}, "samples": [], "reject_scheds": []}
 
 
@@ -278,19 +278,22 @@ def finish_cov(ctx, stats):
         "schedules": stats["schedules"], "profiles": stats["profiles"], "decisions": stats["decisions"], "hook_event_kinds": stats["kinds"],
         "hook_point_hits": stats["hits"], "crashes_injected_at_hook_point": stats["crashedat"], "crashes_total": stats["crashes"],
         "hook_point_crashes": stats["hookcrashes"], "crashes_with_attest_enqueued_but_vote_not_yet_released": stats["between"],
+        "persist_failures_injected": stats["pfails"], "checkpoint_action_started_before_the_vote_task_waited(forced)": stats["ckptfirst"],
         "restarts_restored": stats["restored"], "restarts_fresh": stats["fresh"], "released_votes": stats["released"],
         "released_vote_keys": stats["keys"], "keys_released_by_more_than_one_vote_message": stats["rereleased"],
         "proposal_value_changed_after_crash(by design, not a violation)": stats["proposal_changes_after_crash"],
         "model_rejects": stats["rejects"], "c01abs_rejects": stats["c01_rejects"], "harness_notes": stats["harness_notes"]}
-    ctx.say("C02: %d schedules, %d hook events (%d rejected), %d crashes (%d at hook points %s; %d between enqueue and release), %d released votes on %d keys, %d violations"
+    ctx.say("C02: %d schedules, %d hook events (%d rejected), %d crashes (%d at hook points %s; %d between enqueue and release), %d persist failures injected (%d with the checkpoint action ahead of the vote task's wait), %d released votes on %d keys, %d violations"
             % (stats["schedules"], stats["events"], stats["rejects"], stats["crashes"], stats["hookcrashes"],
-               json.dumps(stats["crashedat"], sort_keys=True), stats["between"], stats["released"], stats["keys"], len(ctx.violations)))
+               json.dumps(stats["crashedat"], sort_keys=True), stats["between"], stats["pfails"], stats["ckptfirst"], stats["released"], stats["keys"], len(ctx.violations)))
     if stats["schedules"] and stats["events"] == 0:
         ctx.tie_failures.append("the C02 hooks saw nothing: no hook events in %d schedules" % stats["schedules"])
     elif stats["schedules"] >= 8:
         dead = [p for p in POINTS if stats["hits"].get(p, 0) == 0]
         if dead:
             ctx.tie_failures.append("hook points never reached in %d schedules: %s" % (stats["schedules"], dead))
+        if stats["pfails"] == 0:
+            ctx.tie_failures.append("no persist failure was injected in %d schedules (the error branch of checkpointAction.do is not exercised)" % stats["schedules"])
         if stats["hookcrashes"] == 0:
             ctx.tie_failures.append("no crash was injected at a hook point in %d schedules" % stats["schedules"])
 
